@@ -1,6 +1,7 @@
 package props
 
 import (
+	"encoding/hex"
 	"encoding/json"
 	"fmt"
 	"testing"
@@ -47,6 +48,7 @@ func init() {
 	replayers["C03/node-machine-conflicts"] = nodeReplayer(nil)
 	replayers["C17/node-machine-window"] = nodeReplayer(nil)
 	replayers["C18/node-machine-snapshots"] = nodeReplayer(func(nm *hx.NodeMachine) error { _, err := nm.CheckSnapshots(); return err })
+	replayers["C18/long-version-chain"] = replayers["C18/node-machine-snapshots"]
 }
 
 // mixedOp draws an ordinary operation, or with probability advPct an adversarial one.
@@ -208,5 +210,75 @@ func TestC18(t *testing.T) {
 			}
 		})
 	})
+	if !t.Failed() {
+		// long version chains (round-7 change C18-k: the snapshot's walk along a key's version chain gives up after 256
+		// steps): a key written once, a snapshot block, then ONE peer block with 258-300 transactions that each rewrite
+		// the key; the snapshot at every ancestor must still answer what the model says
+		c.Check(t, "long-version-chain", hx.N(3, 6), func(cs *hx.Case) {
+			rt := cs.RT()
+			opts := hx.DefaultOpts()
+			cs.Op(map[string]interface{}{"opts": opts})
+			nm, err := hx.NewNodeMachine(opts, fs)
+			if err != nil {
+				rt.Fatalf("setup: %v", err)
+			}
+			defer nm.Close()
+			exec := func(op hx.NOp) {
+				cs.Op(op)
+				if err := nm.Apply(op); err != nil {
+					cs.Failf("%s: %v", opJSON(op), err)
+				}
+				if err := nm.CheckState(); err != nil {
+					cs.Failf("after %s: %v", opJSON(op), err)
+				}
+				n, err := nm.CheckSnapshots()
+				reads += n
+				if err != nil {
+					cs.Failf("after %s: %v", opJSON(op), err)
+				}
+			}
+			long := false
+			block := func(n int, expect string) {
+				m := nm.LM.M
+				parent := nm.Ptr
+				op := hx.NOp{Op: "peer", Label: fmt.Sprintf("b%d", len(m.Blocks)), Parent: parent, Proposer: 1, Expect: expect}
+				s := nm.States[parent].Clone()
+				h := m.Blocks[parent].Height + 1
+				for i := 0; len(op.Txs) < n && i < 4*n; i++ {
+					// a self-payment of one whole unfrozen output of ring key 0 that rewrites the key
+					us := spendable(s, hx.Ring[0].Address, h, false)
+					if len(us) == 0 {
+						break
+					}
+					u := us[0]
+					nm.Seq++
+					spec := hx.TxSpec{From: 0, Seq: nm.Seq, Version: 3,
+						Ins:  []hx.InRef{{Addr: 0, Txid: hex.EncodeToString(u.Txid), Off: u.Off, Amount: u.Amount.String(), Frozen: u.Frozen}},
+						Outs: []hx.OutSpec{{To: 0, Amount: u.Amount.String()}},
+						Prog: []hx.Ins{{Op: "put", K: "a", V: fmt.Sprintf("v%d", i%10)}}}
+					if i%50 == 49 {
+						spec.Prog = append(spec.Prog, hx.Ins{Op: "put", K: "b", V: "w"})
+					}
+					if tx, _ := buildForGen(nm, &spec, s); tx != nil {
+						s.Apply(tx, "")
+						op.Txs = append(op.Txs, spec)
+					}
+				}
+				if n > 200 && len(op.Txs) > 256 {
+					long = true
+				}
+				exec(op)
+				exec(hx.NOp{Op: "sync"})
+			}
+			block(rapid.IntRange(1, 3).Draw(rt, "first"), "first-writes")
+			block(1, "snapshot-block")
+			n := rapid.IntRange(258, 300).Draw(rt, "rewrites")
+			block(n, "long-chain")
+			if nm.Stat["peer-stored"] >= 3 && long {
+				cs.NontrivialKey(n)
+				cs.Label("version-chain>256-behind-a-snapshot")
+			}
+		})
+	}
 	c.Extra("snapshot_reads_compared", reads)
 }
